@@ -777,17 +777,17 @@ example : (run (treeSwitchingKeyCompressedEncryptSk .fft64 8 ⟨2, 1, 4, 17, 2, 
 
 /-- `glwe_mul_plain` (repaired formula, docs/fixes/12) for every offset and every effective precision of the operands -/
 theorem glwe_mul_plain_ok (off : Nat) (res a : G) (bSize ea eb : Nat) (hn : n % 8 = 0) (hea : ea ≤ a.size) (heb : eb ≤ bSize)
-    (w : Arena) (h : tbGlweMulPlain be n res a bSize ≤ w.available) :
+    (hoff : cnvHi off a.b2k ≤ ea + eb) (w : Arena) (h : tbGlweMulPlain be n res a bSize ≤ w.available) :
     (run (treeGlweMulPlain be n off res a bSize ea eb) w).isOk = true :=
-  (mulPlain_facts be n off res a bSize ea eb hn hea heb).ok w h
+  (mulPlain_facts be n off res a bSize ea eb hn hea heb hoff).ok w h
 
 example : (run (treeGlweMulPlain .fft64 8 0 ⟨1, 1, 17⟩ ⟨1, 3, 17⟩ 3 3 3) ⟨4096, tbGlweMulPlain .fft64 8 ⟨1, 1, 17⟩ ⟨1, 3, 17⟩ 3⟩).isOk = true := by decide
 
 /-- `glwe_mul_plain_assign` -/
 theorem glwe_mul_plain_assign_ok (off : Nat) (res : G) (aSize er ea : Nat) (hn : n % 8 = 0) (her : er ≤ res.size) (hea : ea ≤ aSize)
-    (w : Arena) (h : tbGlweMulPlain be n res res aSize ≤ w.available) :
+    (hoff : cnvHi off res.b2k ≤ ea + er) (w : Arena) (h : tbGlweMulPlain be n res res aSize ≤ w.available) :
     (run (treeGlweMulPlainAssign be n off res aSize er ea) w).isOk = true :=
-  (mulPlainAssign_facts be n off res aSize er ea hn her hea).ok w h
+  (mulPlainAssign_facts be n off res aSize er ea hn her hea hoff).ok w h
 
 example : (run (treeGlweMulPlainAssign .ntt120 8 17 ⟨1, 3, 17⟩ 2 3 2) ⟨4096, tbGlweMulPlain .ntt120 8 ⟨1, 3, 17⟩ ⟨1, 3, 17⟩ 2⟩).isOk = true := by decide
 
@@ -800,11 +800,16 @@ theorem glwe_mul_plain_old_formula_counterexample :
 
 /-- `glwe_tensor_apply` / `glwe_tensor_apply_add_assign` (convolution queries with the accumulator size, docs/fixes/13) -/
 theorem glwe_tensor_apply_ok (off : Nat) (res a : G) (bSize ea eb : Nat) (hn : n % 8 = 0) (hea : ea ≤ a.size) (heb : eb ≤ bSize)
-    (hb : 0 < a.b2k) (w : Arena) (h : tbGlweTensorApply be n res a bSize ≤ w.available) :
+    (hb : 0 < a.b2k) (hoff : cnvHi off a.b2k ≤ ea + eb) (w : Arena) (h : tbGlweTensorApply be n res a bSize ≤ w.available) :
     (run (treeGlweTensorApply be n off res a bSize ea eb) w).isOk = true :=
-  (tensorApply_facts be n off res a bSize ea eb hn hea heb hb).ok w h
+  (tensorApply_facts be n off res a bSize ea eb hn hea heb hb hoff).ok w h
 
 example : (run (treeGlweTensorApply .fft64 8 19 ⟨1, 5, 19⟩ ⟨1, 3, 19⟩ 4 3 4) ⟨4096, tbGlweTensorApply .fft64 8 ⟨1, 5, 19⟩ ⟨1, 3, 19⟩ 4⟩).isOk = true := by decide
+
+/-- the hypothesis `cnv_offset_hi ≤ ea + eb` is a real (unchecked) precondition of the Rust body: beyond it
+`a_size + b_size − cnv_offset_hi` wraps and the accumulator is sized by the result alone -/
+example : (run (treeGlweTensorApply .ntt120 16 57 ⟨1, 6, 17⟩ ⟨1, 1, 13⟩ 1 1 1) ⟨4096, tbGlweTensorApply .ntt120 16 ⟨1, 6, 17⟩ ⟨1, 1, 13⟩ 1⟩).isOk = false := by
+  decide
 
 /- FULL STATEMENT (false before docs/fixes/13, tiny rings only: the normalisation scratch dominates from N = 32 on) -/
 theorem glwe_tensor_apply_old_formula_counterexample :
@@ -813,8 +818,9 @@ theorem glwe_tensor_apply_old_formula_counterexample :
 
 /-- `glwe_tensor_square_apply` -/
 theorem glwe_tensor_square_apply_ok (off : Nat) (res a : G) (ea : Nat) (hn : n % 8 = 0) (hea : ea ≤ a.size) (hb : 0 < a.b2k)
-    (w : Arena) (h : tbGlweTensorSquare be n res a ≤ w.available) : (run (treeGlweTensorSquare be n off res a ea) w).isOk = true :=
-  (tensorSquare_facts be n off res a ea hn hea hb).ok w h
+    (hoff : cnvHi off a.b2k ≤ 2 * ea) (w : Arena) (h : tbGlweTensorSquare be n res a ≤ w.available) :
+    (run (treeGlweTensorSquare be n off res a ea) w).isOk = true :=
+  (tensorSquare_facts be n off res a ea hn hea hb hoff).ok w h
 
 example : (run (treeGlweTensorSquare .ntt120 8 40 ⟨2, 3, 17⟩ ⟨2, 3, 17⟩ 3) ⟨4096, tbGlweTensorSquare .ntt120 8 ⟨2, 3, 17⟩ ⟨2, 3, 17⟩⟩).isOk = true := by decide
 
@@ -939,13 +945,14 @@ example : (run (treeBdd2w1w .fft64 8 2 4 3 2 2 ⟨1, 2, 17⟩ ⟨1, 1, 3, 17, 2,
 
 /-- the CKKS products: `ckks_mul`, `ckks_square`, `ckks_mul_pt_vec_rnx` (`_znx` is `glwe_mul_plain`), `ckks_mul_pt_const` -/
 theorem ckks_products_ok (off ea eb : Nat) (ct a : G) (t : K) (ptSize : Nat) (hn : n % 8 = 0)
-    (hea : ea ≤ ct.size) (heb : eb ≤ ct.size) (hb : 0 < ct.b2k) (hea' : ea ≤ a.size) (w : Arena) :
+    (hea : ea ≤ ct.size) (heb : eb ≤ ct.size) (hb : 0 < ct.b2k) (hea' : ea ≤ a.size)
+    (hoff : cnvHi off ct.b2k ≤ ea + eb) (hoff2 : cnvHi off ct.b2k ≤ 2 * ea) (hoff3 : cnvHi off a.b2k ≤ ea + ptSize) (w : Arena) :
     (tbCkksMul be n ct t ≤ w.available → (run (treeCkksMul be n off ea eb ct t) w).isOk = true) ∧
     (tbCkksSquare be n ct t ≤ w.available → (run (treeCkksSquare be n off ea ct t) w).isOk = true) ∧
     (tbCkksMulPtVecRnx be n ct a ptSize ≤ w.available → (run (treeCkksMulPtVecRnx be n off ct a ptSize ea) w).isOk = true) ∧
     (tbCkksMulPtConst be n ct a ptSize ≤ w.available → (run (treeCkksMulPtConst be n off ct a ptSize) w).isOk = true) :=
-  ⟨(ckksMul_facts be n off ea eb ct t hn hea heb hb).ok w, (ckksSquare_facts be n off ea ct t hn hea hb).ok w,
-   (ckksMulPtVecRnx_facts be n off ct a ptSize ea hn hea').ok w, (ckksMulPtConst_facts be n off ct a ptSize hn).ok w⟩
+  ⟨(ckksMul_facts be n off ea eb ct t hn hea heb hb hoff).ok w, (ckksSquare_facts be n off ea ct t hn hea hb hoff2).ok w,
+   (ckksMulPtVecRnx_facts be n off ct a ptSize ea hn hea' hoff3).ok w, (ckksMulPtConst_facts be n off ct a ptSize hn).ok w⟩
 
 example : (run (treeCkksMul .fft64 8 57 3 3 ⟨1, 3, 19⟩ ⟨1, 1, 3, 19, 3, 1⟩) ⟨4096, tbCkksMul .fft64 8 ⟨1, 3, 19⟩ ⟨1, 1, 3, 19, 3, 1⟩⟩).isOk = true := by decide
 
@@ -960,11 +967,12 @@ example : (run (treeCkksComposite 8 ⟨1, 3, 19⟩ (treeCkksMul .fft64 8 57 3 3 
 
 /-- `ckks_mul_many` (`levels ≤ ceil_log2(cnt)` levels of halving) and `ckks_dot_product_ct` (fast path) -/
 theorem ckks_many_ok (off ea eb cnt levels : Nat) (ct : G) (t : K) (hn : n % 8 = 0)
-    (hea : ea ≤ ct.size) (heb : eb ≤ ct.size) (hb : 0 < ct.b2k) (hl : 2 < cnt ∧ levels ≤ ceilLog2 cnt ∨ levels = 0) (w : Arena) :
+    (hea : ea ≤ ct.size) (heb : eb ≤ ct.size) (hb : 0 < ct.b2k) (hoff : cnvHi off ct.b2k ≤ ea + eb)
+    (hl : 2 < cnt ∧ levels ≤ ceilLog2 cnt ∨ levels = 0) (w : Arena) :
     (tbCkksMulMany be n cnt ct t ≤ w.available → (run (treeCkksMulMany be n off ea eb ct t levels) w).isOk = true) ∧
     (tbCkksDotProductCt be n cnt ct t ≤ w.available → (run (treeCkksDotProductCt be n off ea eb cnt ct t) w).isOk = true) := by
-  refine ⟨fun h => ?_, (ckksDotProductCt_facts be n off ea eb cnt ct t hn hea heb hb).ok w⟩
-  refine ((ckksMulMany_facts be n off ea eb ct t hn hea heb hb levels).mono ?_).ok w h
+  refine ⟨fun h => ?_, (ckksDotProductCt_facts be n off ea eb cnt ct t hn hea heb hb hoff).ok w⟩
+  refine ((ckksMulMany_facts be n off ea eb ct t hn hea heb hb hoff levels).mono ?_).ok w h
   unfold tbCkksMulMany
   rcases hl with ⟨h2, hlv⟩ | rfl
   · rw [if_neg (by omega)]
